@@ -106,7 +106,7 @@ def build(U):
     U.add("}\n} // verus!\nfn main() {}\n")
     U.trust('generate_free_chunks* (allocator, C12) by assumed contract: pure, returns only registered proxies and exactly the number of chunks asked for',
             'proxy_resource_to_chunk_store / cluster_store_to_cluster through the contracts proved in units chunk_init / query_view',
-            'precondition: every proxy named by a chunk of the cluster is registered (store index invariant); the request adds at most 8192 chunks',
+            'precondition: every proxy named by a chunk of the cluster is registered (store index invariant)',
             'R-strkey: HashMap<String,_>::get_mut(&str) keyed by the String with the same text; R-tail; NonZeroUsize::new by shim')
 
 MUST_FAIL = '''
